@@ -63,12 +63,11 @@ def models_factory():
 
 
 def clause_props(name, contract_props):
-    """an obligation name may end in '|C03,C11]' style tags inside its clause brackets"""
-    if '|' in name:
-        tag = name.rsplit('|', 1)[1].rstrip(']').rstrip(':entry').rstrip(':preserved')
-        tags = [t for t in tag.replace(']', '').split(':')[0].split(',') if t.startswith('C')]
-        if tags:
-            return tags
+    """an obligation clause may carry a tag `|C03,C11`: it then belongs to those properties only"""
+    import re
+    m = re.search(r'\|((?:C\d+,?)+)', name)
+    if m:
+        return [t for t in m.group(1).split(',') if t]
     return list(contract_props)
 
 
@@ -84,6 +83,11 @@ def verify_worker(args):
         c = reg.get(key)
         out['props'] = list(c.props)
         out['trusted'] = bool(c.trusted)
+        if getattr(c, 'assumed', False):
+            out['assumed'] = True
+            out['doc'] = c.doc
+            out['wall_s'] = 0.0
+            return out
         from pyvc.contract import verify_function
         from pyvc.solve import discharge, merge_verdicts
         axioms = LATTICE.axioms()
@@ -141,8 +145,8 @@ def replay_known(entry, timeout=120):
     script = entry.get('replay')
     if not script:
         return None, 'no replay script'
-    cmd = ['/venv/bin/python', os.path.join(VERIF, script)]
-    env = dict(os.environ, PYTHONPATH='/repo', PYTHONDONTWRITEBYTECODE='1')
+    cmd = ['/venv/bin/python', os.path.join(VERIF, script)] + list(entry.get('args', []))
+    env = dict(os.environ, PYTHONPATH=f'{repo_mod.REPO_ROOT}:{VERIF}', PYTHONDONTWRITEBYTECODE='1')
     try:
         p = subprocess.run(cmd, capture_output=True, text=True, timeout=timeout, env=env, cwd=VERIF)
         return p.returncode, (p.stdout + p.stderr)[-1500:]
